@@ -106,11 +106,10 @@ class RTDCBase(abc.ABC):
                 or feat in self.features_basin):
             ct = True
         else:
-            # Check ancillary features data
-            if feat in self._ancillaries:
-                # already computed
-                ct = True
-            elif feat in AncillaryFeature.feature_names:
+            # Check ancillary features data. Note that we cannot rely
+            # on `self._ancillaries` (already computed data) here, because
+            # the configuration might have changed in the meantime.
+            if feat in AncillaryFeature.feature_names:
                 # get all instance of AncillaryFeature that
                 # check availability of the feature `feat`
                 instlist = AncillaryFeature.get_instances(feat)
